@@ -13,9 +13,20 @@ def regen(ctx):
          R + "utils.go:callback.UnlockExecution", R + "utils.go:callback.MarkUnsubscribed",
          R + "set_impl.go:set.Apply", R + "set_impl.go:set.Compute", R + "set_impl.go:set.Replace",
          R + "set_impl.go:set.apply", R + "set_impl.go:set.replace", R + "set_impl.go:readableSet.OnUpdate",
-         R + "event_impl.go:event.Trigger", R + "event_impl.go:event.OnTrigger"],
+         R + "event_impl.go:event.Trigger", R + "event_impl.go:event.OnTrigger",
+         # a DerivedSet's inherited mutations are one more writer of the same protocol
+         R + "set_impl.go:derivedSet.inheritMutations", R + "set_impl.go:derivedSet.applyInheritedMutations",
+         # the callback list: every access of the notification path holds the list mutex around the whole walk
+         "ds/list_impl.go:threadSafeList.Values", "ds/list_impl.go:threadSafeList.PushBack",
+         "ds/list_impl.go:threadSafeList.Remove", "ds/list_impl.go:threadSafeList.Range",
+         "ds/list_impl.go:list.Values", "ds/list_impl.go:list.Range",
+         # type facts: which mutex a selector resolves to, and the width of the update id
+         R + "variable_impl.go:type=variable", R + "variable_impl.go:type=readableVariable",
+         R + "set_impl.go:type=set", R + "set_impl.go:type=readableSet", R + "set_impl.go:type=derivedSet",
+         R + "utils.go:type=callback", R + "utils.go:type=uniqueID", R + "event_impl.go:type=event",
+         "ds/list_impl.go:type=threadSafeList"],
         extra_methods=["LockExecution", "UnlockExecution", "MarkUnsubscribed", "Invoke", "PushBack", "Remove",
-                       "Values", "Next", "updateValue", "apply", "replace", "ToSlice"])
+                       "Values", "Next", "updateValue", "apply", "replace", "ToSlice", "Range", "applyInheritedMutations"])
 
 
 SPEC = {
@@ -33,7 +44,13 @@ SPEC = {
                  "C13_skeleton_callback_LockExecution", "C13_skeleton_callback_UnlockExecution",
                  "C13_skeleton_callback_MarkUnsubscribed", "C13_skeleton_set_Apply", "C13_skeleton_set_Compute",
                  "C13_skeleton_set_Replace", "C13_skeleton_set_apply", "C13_skeleton_set_replace",
-                 "C13_skeleton_set_OnUpdate", "C13_skeleton_event_Trigger", "C13_skeleton_event_OnTrigger"],
+                 "C13_skeleton_set_OnUpdate", "C13_skeleton_event_Trigger", "C13_skeleton_event_OnTrigger",
+                 "C13_skeleton_list_Values", "C13_skeleton_list_PushBack", "C13_skeleton_list_Remove", "C13_skeleton_list_Range",
+                 "C13_skeleton_list_inner_Values", "C13_skeleton_list_inner_Range",
+                 "C13_skeleton_derivedSet_inheritMutations", "C13_skeleton_derivedSet_applyInheritedMutations",
+                 "C13_skeleton_type_variable", "C13_skeleton_type_readableVariable", "C13_skeleton_type_set",
+                 "C13_skeleton_type_readableSet", "C13_skeleton_type_derivedSet", "C13_skeleton_type_callback",
+                 "C13_skeleton_type_uniqueID", "C13_skeleton_type_event", "C13_skeleton_type_threadSafeList"],
     "trusted_base": [
         "hand-written protocol model Hive/Model/Reactive.lean (+ ReactiveInst.lean) of ds/reactive variable_impl.go / set_impl.go / "
         "event_impl.go / utils.go, tied by (a) regenerated synchronisation skeletons stated as theorems, (b) differential execution of "
@@ -46,7 +63,8 @@ SPEC = {
         "MarkUnsubscribed = {lock, set, unlock}; ds.List PushBack/Remove/Values are atomic (threadSafeList mutex)",
         "callback bodies are opaque (enter/exit events): a callback that writes to or unsubscribes from its own object is NOT modelled (it self-deadlocks in the code)",
         "the value mutex is an RWMutex in the code; readers (Get/Read/ToSlice) are not threads of the model, Get() is read at quiescence",
-        "derived objects (DerivedVariable, DerivedSet, InheritFrom, WithValue, OnUpdateOnce, OnUpdateWithContext) are C14's, not modelled here",
+        "update ids are unbounded naturals, justified by uniqueID = uint64 (obligation C13_skeleton_type_uniqueID)",
+        "a DerivedSet's subscribers are covered (inheritMutations = one more writer under the same embedded set.mutex); what a derived object computes (DerivedVariable, DerivedSet contents, WithValue, OnUpdateOnce, OnUpdateWithContext) is C14's, not modelled here",
         "Set contents are lists of naturals compared as sets; ds.Set's iteration order is not modelled",
     ],
     "manifest": {
